@@ -67,6 +67,11 @@ fn explode_function(
     name_prefix: String,
 ) -> FnUpdate {
     if regulators.is_empty() {
+        // the name of the synthetic parameter must not collide with a name of some network variable
+        let mut name_prefix = name_prefix;
+        while network.as_graph().find_variable(name_prefix.as_str()).is_some() {
+            name_prefix.push('_');
+        }
         let parameter = network.find_parameter(name_prefix.as_str());
         let parameter =
             parameter.unwrap_or_else(|| network.add_parameter(name_prefix.as_str(), 0).unwrap());
